@@ -86,6 +86,18 @@ func (w *vfWorld) newTx(mode sop.TransactionMode) sop.Transaction {
 func (w *vfWorld) restart() {
 	w.l2 = mocks.NewMockClient()
 	cache.VerifResetGlobals()
+	// maintenance scheduling state of package common, as in a freshly started process
+	lastOnIdleRunTime = 0
+	lastPriorityOnIdleTime = 0
+	priorityLogFound = false
+	onStartUpFlag = true
+	hourBeingProcessed = ""
+}
+
+// vfInstallClock makes sop.Now follow zzvf.Advance in native runs too (under the engine
+// time.Now already reads the model clock that Advance moves).
+func vfInstallClock() {
+	sop.Now = func() time.Time { return time.Now().Add(time.Duration(zzvf.Advanced())) }
 }
 
 // ---- store repository ----
